@@ -411,6 +411,21 @@ fn case(rt: &mut tokio::runtime::Runtime, rng: &mut Rng, ctx: &mut Ctx) {
         }
     }
     let file_names: BTreeSet<String> = registered.iter().map(|&i| files[i].fd.name.clone().unwrap()).collect();
+    // the two name spaces are separate: a file name is not a symbol, a symbol is not a file name -
+    // also (especially) after the same service instance has answered the straight lookups above
+    for f in file_names.iter().take(3) {
+        if !declared.contains_key(f) {
+            unknown.push(f.clone());
+        }
+    }
+    for sym in names.iter().take(40).filter(|n| !file_names.contains(*n)).take(3) {
+        ctx.count("unknown.symbol_as_file");
+        let r = rt.block_on(ask_v1(s1.clone(), vec![v1::server_reflection_request::MessageRequest::FileByFilename(sym.clone())], seed));
+        let r2 = rt.block_on(ask_v1alpha(s2.clone(), vec![v1alpha::server_reflection_request::MessageRequest::FileByFilename(sym.clone())], seed));
+        if r.first() != Some(&Answer::Err(5)) || r2.first() != Some(&Answer::Err(5)) {
+            ctx.violation("unknown-file-resolved", format!("{:?} is a symbol, not a registered file, but FileByFilename answered {:?} / {:?}", sym, r.first().map(|a| matches!(a, Answer::Files(_))), r2.first().map(|a| matches!(a, Answer::Files(_)))));
+        }
+    }
     for u in &unknown {
         ctx.count("unknown.queries");
         let r1 = rt.block_on(ask_v1(s1.clone(), vec![v1::server_reflection_request::MessageRequest::FileContainingSymbol(u.clone())], seed));
